@@ -272,9 +272,9 @@ impl<T, U> Framed<T, U> {
         T: AsyncWrite,
         U: Encoder<I>,
     {
-        let mut this = self.as_mut().project();
-        ready!(this.io.as_mut().poll_flush(cx))?;
-        ready!(this.io.as_mut().poll_shutdown(cx))?;
+        // write out buffered frames (and flush the I/O stream) before shutting it down
+        ready!(self.as_mut().flush::<I>(cx))?;
+        ready!(self.as_mut().project().io.poll_shutdown(cx))?;
         Poll::Ready(Ok(()))
     }
 }
